@@ -33,7 +33,9 @@ MANIFEST = {
             "software name and every mapping the value read is the declared one) and C20_live_attribute_per_class; only pydantic's "
             "handling of the schema's keyword arguments is trusted. SPECIFICATION: `declared` is the closed form of the loader; "
             "`spec` (software = the SET of names each with the options of the last entry naming it; NIC number k carries the entry "
-            "under key k) shares no helper with the loader model and C20_declared_meets_spec / C20_build_meets_spec prove them equal up "
+            "under key k; ACLs position by position - the rule the file lists under key p, else ARP at 22 / ICMP at 23 on a router, "
+            "else nothing, with the documented implicit actions; router port k carries the address under key k; users and "
+            "folders/files by name) shares no helper with the loader model and C20_declared_meets_spec / C20_build_meets_spec prove them equal up "
             "to the order of software (C20_software_meets_spec for EVERY node entry; C20_nics_by_key). Also: C20_software_one_instance_"
             "per_name, C20_software_initial_state (every node entry, well-formed or not), C20_key_order_irrelevant (every mapping incl. "
             "airspace capacities; one lemma per mapping-iteration site of the regenerated site inventory), C20_schedule_assembles/"
@@ -760,6 +762,26 @@ def run(ctx: Ctx):
                               f"{nm}: quoted integers at '{site}' build another simulation: {diff[:4]}",
                               {"mode": "scenario", "cfg": v, "digest_steps": 0, "raw_keys": True, "from": nm, "site": site,
                                "expected_inventory_of": cfg})
+    # OUT OF DOMAIN, measured and reported only: a file in which a node set's generated hostname collides with a declared node, and
+    # one with two `nodes:` entries of one hostname. `WellFormed` excludes both (hostnames reference nodes); the model wires the
+    # adder's links by hostname, the code by object reference (C20_wiring_by_name_is_by_reference: the same under unique hostnames).
+    dup = {"io_settings": dict(G.QUIET_IO), "game": {"ports": ["HTTP"], "protocols": ["TCP"]}, "agents": [],
+           "simulation": {"network": {"nodes": [
+               {"hostname": "pc_1_LAB", "type": "computer", "ip_address": "10.0.0.5", "subnet_mask": "255.255.255.0"},
+               {"hostname": "dup", "type": "computer", "ip_address": "10.0.0.6", "subnet_mask": "255.255.255.0"},
+               {"hostname": "dup", "type": "server", "ip_address": "10.0.0.7", "subnet_mask": "255.255.255.0"}],
+               "node_sets": [{"type": "office-lan", "lan_name": "LAB", "subnet_base": 66, "pcs_ip_block_start": 20, "num_pcs": 2,
+                              "include_router": False}], "links": []}}}
+    gdup, fdup = _load(dup)
+    if fdup:
+        ctx.count(f"out-of-domain:duplicate-hostnames:refused:{fdup['exc']}")
+    else:
+        names = [n.config.hostname for n in gdup.simulation.network.nodes.values()]
+        shown = len(gdup.simulation.describe_state()["network"]["nodes"])
+        ctx.count("out-of-domain:duplicate-hostnames:accepted-silently")
+        ctx.cov["duplicate_hostnames_probe"] = {"nodes_built": len(names), "distinct_hostnames": len(set(names)), "nodes_in_describe_state": shown,
+                                                "note": "not claimed: the file is not well-formed; the loader builds every node, by-hostname "
+                                                        "lookups and describe_state reach one per name"}
     ctx.count("nodes-not-in-declared-state-after-reset (F-31, not claimed)", f31_total)
     ctx.oblige("rig:R-cfg the modelled loader (Lean build) agrees with the real inventory on every modelled scenario", "correspondence",
                agree == modelled, f"{modelled - agree} of {modelled} scenarios disagree")
